@@ -132,4 +132,12 @@ Section Core.
 
   (* info side channel *)
   Definition info_settings (i : input) : list kwargs := settings i.
+
+  (* parse_combos refuses a grid in which two values of one argument are EQUAL (the results are keyed by
+     value): nothing is run.  Values are modelled by integers, equal values by equal integers. *)
+  Fixpoint dup_free (l : list Z) : bool :=
+    match l with [] => true | x :: r => negb (mem x r) && dup_free r end.
+  Definition values_ok (i : input) : bool := forallb dup_free (i_combo_values i).
+  Definition checked_core (i : input) : out R * list kwargs :=
+    if values_ok i then core i else (ORejected, []).
 End Core.
